@@ -71,6 +71,24 @@ SmugCases == <<
    [script |-> <<SmugReq("abcd" \o Smug, <<3, 1 + Len(Smug)>>), Probe>>, prog |-> P(<<3, 1>>, FALSE)],
    [script |-> <<SmugReq("abcd" \o Smug, <<3, 1 + Len(Smug)>>), Probe>>, prog |-> P(<<4>>, FALSE)],
    [script |-> <<SmugReq("ab" \o Smug, <<2 + Len(Smug)>>), Probe>>, prog |-> P(<<4096>>, TRUE)] >>
+\* multipart forms: declared by Content-Length (parsed by the server while it reads the request: the handler's stream
+\* is empty and the next request starts behind the form), chunked (streamed as any other body), and without a body
+RECURSIVE Fill(_, _)
+Fill(c, n) == IF n = 0 THEN "" ELSE c \o Fill(c, n - 1)
+MpCT == F("content-type", "canon", <<"multipart/form-data;", "boundary=BB">>)
+MpBody(n) == "--BB\r\nContent-Disposition: form-data; name=f\r\n\r\n" \o Fill("m", n) \o "\r\n--BB--\r\n"
+MpReq(fr, n, cs) == [Req("POST", "/mp", fr, Len(MpBody(n)), cs, << >>, FALSE) EXCEPT !.bodyLit = MpBody(n), !.fields = <<HostField, MpCT>>]
+MpNone == [Req("POST", "/mp0", "none", 0, << >>, << >>, FALSE) EXCEPT !.fields = <<HostField, MpCT>>]
+MpCases == <<
+   [script |-> <<MpReq("cl", 10, << >>), Probe>>, prog |-> P(<<4096>>, TRUE)],
+   [script |-> <<MpReq("cl", 300, << >>), ProbeChunked>>, prog |-> P(<<1>>, FALSE)],
+   [script |-> <<MpReq("cl", 9000, << >>), Probe>>, prog |-> P(<< >>, FALSE)],
+   [script |-> <<MpReq("chunked", 10, <<Len(MpBody(10))>>), Probe>>, prog |-> P(<<4096>>, TRUE)],
+   [script |-> <<MpReq("chunked", 10, <<5, Len(MpBody(10)) - 5>>), ProbeChunked>>, prog |-> P(<<3>>, FALSE)],
+   [script |-> <<MpNone, Probe>>, prog |-> P(<<4096>>, TRUE)] >>
+MpCase(j) == [id |-> Len(AllSeq) + Len(SmugCases) + j, script |-> MpCases[j].script, wire |-> Encode(MpCases[j].script),
+              offs |-> Offsets(MpCases[j].script), progs |-> <<MpCases[j].prog, P(<<4096>>, TRUE)>>]
+
 SmugCase(j) == [id |-> Len(AllSeq) + j, script |-> SmugCases[j].script, wire |-> Encode(SmugCases[j].script),
                 offs |-> Offsets(SmugCases[j].script), progs |-> <<SmugCases[j].prog, P(<<4096>>, TRUE)>>]
 
@@ -79,7 +97,9 @@ Case(k) == [id |-> k, script |-> Script(k), wire |-> Encode(Script(k)), offs |->
 
 ASSUME \A k \in 1 .. Len(AllSeq) : \A j \in 1 .. 2 : WellFormedReq(Script(k)[j])
 ASSUME \A j \in 1 .. Len(SmugCases) : WellFormedReq(SmugCases[j].script[1])
-ASSUME ndJsonSerialize(IOEnv.VERIF_OUT, [k \in 1 .. Len(AllSeq) |-> Case(k)] \o [j \in 1 .. Len(SmugCases) |-> SmugCase(j)])
+ASSUME \A j \in 1 .. Len(MpCases) : WellFormedReq(MpCases[j].script[1])
+ASSUME ndJsonSerialize(IOEnv.VERIF_OUT, [k \in 1 .. Len(AllSeq) |-> Case(k)] \o [j \in 1 .. Len(SmugCases) |-> SmugCase(j)]
+                                        \o [j \in 1 .. Len(MpCases) |-> MpCase(j)])
 
 VARIABLE g
 GenInit == g = 0
